@@ -6,13 +6,17 @@ establish, and return what the pure model (Model/Inner.lean) computes.
 import JulianVerif.Lemmas.CheckedKernels
 import JulianVerif.Lemmas.Cmp
 set_option linter.unusedSimpArgs false
+set_option maxHeartbeats 1000000
 namespace JV.Chk
 
 /-- unfold the generated comparison, split every branch, close by `rfl` or arithmetic -/
 macro "chk_cmp_cases" : tactic => `(tactic| (
-  simp only [cmpYmRange, ymKey, Month.lt, Month.le, Month.beq_eq_decide, Bool.or_eq_true,
+  unfold cmpYmRange
+  simp only [ymKey, Month.lt, Month.le, Month.beq_eq_decide, Bool.or_eq_true,
     Bool.and_eq_true, decide_eq_true_eq, beq_iff_eq, Bool.not_eq_true', decide_eq_false_iff_not,
     pure] at *
+  simp only [Bool.or_eq_false_iff, Bool.and_eq_false_imp, beq_eq_false_iff_ne, decide_eq_false_iff_not,
+    beq_iff_eq, ne_eq] at *
   repeat' split
   all_goals first | rfl | (exfalso; omega)))
 
@@ -62,14 +66,14 @@ theorem cmpYmRange_eq (h0 : ymKey ly lm ≤ ymKey uy um) :
     cmpYmRange (y, m) (ly, lm) (uy, um) = some (JV.cmpYmRange y m ly lm uy um) := by
   rcases Int.lt_trichotomy (ymKey y m) (ymKey ly lm) with h | h | h
   · rw [cmpYmRange_less y m ly lm uy um h0 h, JV.cmpYmRange_less y m ly lm uy um h]
-  · rcases Int.lt_or_ge (ymKey y m) (ymKey uy um) with h2 | h2
+  · by_cases h2 : ymKey y m < ymKey uy um
     · rw [cmpYmRange_eqLower y m ly lm uy um h0 h h2, JV.cmpYmRange_eqLower y m ly lm uy um h h2]
     · have h3 : ymKey y m = ymKey uy um := by omega
       rw [cmpYmRange_eqBoth y m ly lm uy um h0 h h3, JV.cmpYmRange_eqBoth y m ly lm uy um h h3]
   · rcases Int.lt_trichotomy (ymKey y m) (ymKey uy um) with h2 | h2 | h2
-    · rw [cmpYmRange_between y m ly lm uy um h0 h h2, JV.cmpYmRange_between y m ly lm uy um h h2]
-    · rw [cmpYmRange_eqUpper y m ly lm uy um h0 h h2, JV.cmpYmRange_eqUpper y m ly lm uy um h h2]
-    · rw [cmpYmRange_greater y m ly lm uy um h0 h h2, JV.cmpYmRange_greater y m ly lm uy um h h2]
+    · rw [cmpYmRange_between y m ly lm uy um h0 h h2, JV.cmpYmRange_between y m ly lm uy um h0 h h2]
+    · rw [cmpYmRange_eqUpper y m ly lm uy um h0 h h2, JV.cmpYmRange_eqUpper y m ly lm uy um h0 h h2]
+    · rw [cmpYmRange_greater y m ly lm uy um h0 h h2, JV.cmpYmRange_greater y m ly lm uy um h0 h h2]
 
 end
 
